@@ -752,6 +752,8 @@ class Discharger:
             return ok
         if t[0] == "rec":
             return True
+        if t[0] == "field" and t[1] == ("rec",) and t[2] == "0":
+            return True     # the value half of a checked addition further round the same cycle
         return False
 
     def is_unit_counter(self, body, a):
@@ -1020,9 +1022,21 @@ def p_segment_cursor_shape(D, site):
     d = dict(idx[3])
     bound = d.get("start") or d.get("end")
     def is_end(t):
-        return t[0] == "call" and t[1] == "Option::unwrap_or_else" and t[2] and t[2][0][0] == "call" and \
-            t[2][0][1] == "Option::map" and t[2][0][2][0][0] == "call" and t[2][0][2][0][1] == "str::find" and \
-            is_ascii_pat(t[2][0][2][0][2][1])
+        if t[0] == "call" and t[1] == "Option::unwrap_or_else" and t[2] and t[2][0][0] == "call" and \
+                t[2][0][1] == "Option::map" and t[2][0][2][0][0] == "call" and t[2][0][2][0][1] == "str::find" and \
+                is_ascii_pat(t[2][0][2][0][2][1]):
+            return True
+        # the `match path[pos..].find('/') { Some(it) => it + pos, None => path.len() }` spelling of the same value
+        if t[0] == "phi" and len(t[1]) == 2:
+            lens = [x for x in t[1] if D.is_len(x) and x[2] and _self_path_term(x[2][0])]
+            sums = []
+            for x in t[1]:
+                ar = unchecked_arith(x)
+                if ar and ar[0] == "Add" and ar[1][0] == "okval" and ar[1][1][0] == "call" and ar[1][1][1] == "str::find" and \
+                        len(ar[1][1][2]) == 2 and is_ascii_pat(ar[1][1][2][1]):
+                    sums.append(x)
+            return len(lens) == 1 and len(sums) == 1
+        return False
     def is_pos(t):
         al = t[1] if t[0] == "phi" else (t,)
         for x in al:
